@@ -3581,9 +3581,11 @@ class SetInstance(object):
             except:
                 for undo_func in reversed(undo_funcs): undo_func()
                 raise
-        # for one-to-many relationships the items were already removed from setdata (and setdata.count was
-        # already decreased) by reverse_remove() called from reverse.__set__() / item._delete_() above
-        if setdata.count is not None: setdata.count -= len(items & setdata)
+        # for one-to-many relationships the items were already removed from setdata (with setdata.count and
+        # setdata.added / setdata.removed updated) by reverse_remove() called from reverse.__set__() /
+        # item._delete_() above: only the items which are still present have to be processed here
+        items &= setdata
+        if setdata.count is not None: setdata.count -= len(items)
         setdata -= items
         added = setdata.added
         removed = setdata.removed
